@@ -1,6 +1,9 @@
-(* CompileCorrect6.v — C01, fragment 4 (closures as values, bodies of several expressions; port of CompileCorrect3.v): the "exec" lemmas of the basic code patterns
-   (constants, variable references, global stores, if, the operand loop, application of a
-   builtin), restated from CompileCorrect2.v over the values [rval6] of Closures6.v.      *)
+(* CompileCorrect6.v — C01, fragment 6 (Closures6.v; port of CompileCorrect4.v): the "exec" lemmas of
+   the basic code patterns over the store semantics: constants, variable references (a local is read
+   THROUGH THE STORE: [exec6_load_local]), global stores, set! on a LOCAL ([store_rel_update6],
+   [exec6_store_local]: the location is overwritten, every other location keeps its content by
+   injectivity of the location map), if, the operand loop, application of a builtin.  Every
+   rext/frame2 of fragment 4 is wext/frame6 here; every conclusion also returns [store_rel]. *)
 From Coq Require Import String Lia FMapPositive.
 From MW Require Import Model.Base Model.F64 Model.Num Model.Datum Model.TransformDef Model.Transform
   Model.VmTypes Model.Heap Model.Gc Model.VmBase Model.Compile Model.Vm
